@@ -359,7 +359,7 @@ SEARCH_DECIDES = {
 }
 SEARCH_PLUMBING = ("Iterator::next", "IntoIterator::into_iter", "Option::is_none", "Option::is_some", "Try::branch", "const", "multi", "arg",
                    "Interest::is_never", "__macro_support::__is_enabled", "dispatcher::has_been_set", "PartialOrd::le", "PartialOrd::lt",
-                   "Lazy::force", "Deref::deref", "unknown", "agg", "promoted")
+                   "Lazy::force", "Deref::deref", "unknown", "agg", "promoted", "Log::enabled", "log::max_level", "LevelFilter", "Level")
 
 
 def decision_names(F, f):
